@@ -71,12 +71,13 @@ Section Matcher.
   (* is the new pair (p -> n) consistent with an earlier pair (q -> m)? *)
   Definition pair_ok (r : rule) (g : mol) (p n q m : Z) : bool :=
     if n =? m then false else
-    match pbond_between r p q, bond_of g n m with
-    | Some pb, Some b => if zmem (b_ord b) (pb_ord pb)
-                         then match pb_ring pb with None => true | Some _ => false end      (* no ring-marked bond in the tables (obligation) *)
-                         else false
-    | None, None => true
-    | _, _ => false
+    (* _bonds[n][m] is _bonds[m][n]: one Bond object under both keys *)
+    match pbond_between r p q, bond_of g n m, bond_of g m n with
+    | Some pb, Some b, Some _ => if zmem (b_ord b) (pb_ord pb)
+                                 then match pb_ring pb with None => true | Some _ => false end      (* no ring-marked bond in the tables (obligation) *)
+                                 else false
+    | None, None, None => true
+    | _, _, _ => false
     end.
 
   Fixpoint extend (r : rule) (g : mol) (todo : list patom) (acc : mapping) : list mapping :=
@@ -221,3 +222,10 @@ Definition passes_bf_ok (ft : bool) (pre : list Z) (g0 g1 : mol) (fixed : list Z
   | Ok (g', _, f') => mol_eqb g' g1 && list_eqb Z.eqb (fold_right zins [] (union_set pre f')) fixed
   | Err _ => false
   end.
+
+(* ---- the engine without any oracle for the matcher: ring sizes from ANY function of the molecule; the five unbalanced rules
+        (whose centre atom has no valence state: they cannot match a valence-valid molecule) switched off ---- *)
+Definition spec_matches (rings : mol -> Z -> list Z) (stage ridx : Z) (r : rule) (g : mol) : list mapping :=
+  brute_matches (rings g) stage ridx r g.
+Definition valid_matches (rings : mol -> Z -> list Z) (stage ridx : Z) (r : rule) (g : mol) : list mapping :=
+  if centre_invalid r then [] else spec_matches rings stage ridx r g.
